@@ -19,7 +19,7 @@ import (
 // reconcile changes nothing.
 //
 //gosym:harness
-//gosym:cover fault-hit created kept-name quiescent garbage-collected
+//gosym:cover fault-hit created kept-name quiescent garbage-collected explicit-name
 func HarnessC01Pipeline() {
 	n := zz.Bound(2, 3)
 	s := kube.New()
@@ -59,6 +59,19 @@ func HarnessC01Pipeline() {
 	after1 := make([]string, n)
 	for i := range after1 {
 		after1[i] = nameOf(zzResNames[i])
+	}
+
+	// from now on the function may give the first desired resource an explicit
+	// metadata.name of its own
+	// (a fresh name or the name the resource had in the pre-state; never the
+	// name of another composed resource, which no arrangement could honour)
+	switch zz.Choose("function.namesFirstResource", 3) {
+	case 1:
+		runner.steps[0].names = []string{"explicit-a"}
+		zz.Cover("explicit-name")
+	case 2:
+		runner.steps[0].names = []string{pre[0].name}
+		zz.Cover("explicit-name")
 	}
 
 	// R2 (a retry if R1 failed)
